@@ -644,6 +644,7 @@ func generate(r *mon.Run, cfg string, emit func(*Case)) {
 	genFaults(add)
 	genStaticChains(r, add)
 	genBigCreate(add)
+	genPushTail(r, add)
 
 	// (d) precompiles
 	genPrecompiles(r, cfg, add)
@@ -1092,6 +1093,105 @@ func genStackFill(cfg string, add func(Case)) {
 	}
 	b.pushU(0).pushU(0).pushU(0).pushU(0).pushU(0).op(opADDRESS, opGAS, opCALL)
 	add(Case{Fam: "stackfill", Tag: "full+CALL", Code: b.bytes(), Gas: 2000000})
+}
+
+// Structured byte strings for the jump-destination analysis: total length L,
+// last opcode PUSHn followed by t of its n data bytes, a prefix that performs a
+// taken JUMP / a taken JUMPI to a real JUMPDEST (the analysis is lazy: it runs on
+// the first jump whose target byte is 0x5b) or a jump to a 0x5b that is PUSH data
+// (must be an invalid jump), JUMPDEST filler in between so that the truncated
+// PUSH is executed too. Quick: a selection of lengths covering every residue
+// mod 8 and several multiples of 8, one run mode per program (rotating);
+// thorough: every L in 1..80 in all six run modes.
+func genPushTail(r *mon.Run, add func(Case)) {
+	var lengths []int
+	if r.Thorough() {
+		for l := 1; l <= 80; l++ {
+			lengths = append(lengths, l)
+		}
+	} else {
+		for l := 1; l <= 25; l++ {
+			lengths = append(lengths, l)
+		}
+		lengths = append(lengths, 31, 32, 33, 40, 47, 48, 49, 56, 63, 64, 65, 72, 79, 80)
+	}
+	prefixes := []struct {
+		name string
+		code []byte
+		ok   bool
+	}{
+		{"jump", []byte{opPUSH1, 3, opJUMP, opJUMPDEST}, true},
+		{"jumpi", []byte{opPUSH1, 1, opPUSH1, 5, opJUMPI, opJUMPDEST}, true},
+		{"pushdata", []byte{opPUSH1, 4, opJUMP, opPUSH1, opJUMPDEST}, false},
+	}
+	modes := []string{"call", "delegatecall", "staticcall", "create", "CREATE", "CREATE2"}
+	k := 0
+	for _, L := range lengths {
+		for n := 1; n <= 32; n++ {
+			ts := []int{0, n - 1, n}
+			if n == 1 {
+				ts = []int{0, 1} // "all data missing" and "one byte missing" coincide
+			}
+			for _, t := range ts {
+				for pi, pf := range prefixes {
+					if L < len(pf.code)+1+t {
+						continue
+					}
+					code := append([]byte{}, pf.code...)
+					for len(code) < L-1-t {
+						code = append(code, opJUMPDEST)
+					}
+					code = append(code, byte(0x5f+n))
+					for j := 0; j < t; j++ {
+						code = append(code, 0xff)
+					}
+					site := fmt.Sprintf("m%d:PUSH%d", L%8, n)
+					tag := fmt.Sprintf("L%d/PUSH%d+%d/%s", L, n, t, pf.name)
+					emit := func(mode string) {
+						c := Case{Fam: "pushtail", Cell: site, Tag: tag + "/" + mode, Gas: 2000000}
+						switch mode {
+						case "call":
+							c.Code = code
+							c.Expect = map[bool]string{true: "top:ok", false: "top:bad-jump"}[pf.ok]
+						case "delegatecall", "staticcall":
+							op := byte(opDELEGATECALL)
+							if mode == "staticcall" {
+								op = opSTATICCALL
+							}
+							c.Code = forwarder(op, new(big.Int).SetBytes(auxAAddr.Bytes()), 0)
+							c.Aux = []Acct{{Addr: auxAAddr.GetHexString(), Code: code}}
+							c.Expect = map[bool]string{true: "word:nonzero", false: "word:zero"}[pf.ok]
+						case "create":
+							c.Kind, c.Code = "create", code
+							c.Expect = map[bool]string{true: "top:ok", false: "top:bad-jump"}[pf.ok]
+						default:
+							a := (&asm{}).calldataToMem()
+							if mode == "CREATE2" {
+								a.pushU(uint64(L))
+							}
+							a.op(opCALLDATASIZE).pushU(0).pushU(0)
+							if mode == "CREATE2" {
+								a.op(opCREATE2)
+							} else {
+								a.op(opCREATE)
+							}
+							c.Code, c.Input = a.returnTop().bytes(), code
+							c.Expect = map[bool]string{true: "word:nonzero", false: "word:zero"}[pf.ok]
+						}
+						add(c)
+					}
+					if r.Thorough() {
+						for _, m := range modes {
+							emit(m)
+						}
+					} else {
+						emit(modes[(k+pi)%len(modes)])
+					}
+				}
+				k++
+			}
+		}
+	}
 }
 
 // creations around vm.MaxCodeSize: init code = SSTORE(1,1); LOG0; RETURN(0,size),
